@@ -17,6 +17,8 @@ plugin's own heap objects), so that no other property's verification conditions 
 """
 from __future__ import annotations
 
+import ast
+
 import z3
 
 from .npmodel import ArrObj, NumpyModel, TArr, _arr, _conv, _is_arr, arr_sort
@@ -29,6 +31,7 @@ hs_off = z3.Function("c14_hstack_off", z3.ArraySort(z3.IntSort(), z3.IntSort()),
 hs_blk = z3.Function("c14_hstack_blk", z3.ArraySort(z3.IntSort(), z3.IntSort()), z3.IntSort(), z3.IntSort())  # block of a position
 
 
+strat_weight = z3.Function("c14_stratified_weight", z3.IntSort(), z3.IntSort())  # points per level of the stratified design of the verified class
 pow2 = z3.Function("c14_pow2", z3.IntSort(), z3.IntSort())
 lin_t = z3.Function("np_linspace_t", z3.IntSort(), z3.IntSort(), z3.RealSort())  # t(i, n) = i / (n - 1): relative position of sample i among n
 
@@ -42,7 +45,8 @@ def linspace_facts():
     """Consequences of the definition t(i, n) (n - 1) = i (proved in contracts/c14_doe.py: LinspaceLemmas), in linear form."""
     i, n = z3.Int("i!lt"), z3.Int("n!lt")
     return [z3.ForAll([i, n], z3.Implies(z3.And(n >= 2, 0 <= i, i <= n - 1), z3.And(0 <= lin_t(i, n), lin_t(i, n) <= 1)), patterns=[lin_t(i, n)]),
-            z3.ForAll([n], z3.Implies(n >= 2, z3.And(lin_t(0, n) == 0, lin_t(n - 1, n) == 1)), patterns=[lin_t(0, n)])]
+            z3.ForAll([n], z3.Implies(n >= 2, z3.And(lin_t(0, n) == 0, lin_t(n - 1, n) == 1)), patterns=[lin_t(0, n)]),
+            z3.ForAll([i, n], z3.Implies(z3.And(n >= 2, 1 <= i), lin_t(i, n) > 0), patterns=[lin_t(i, n)])]
 
 
 NUM_CACHE_FIELDS = ("_DesignSpace__norm_data_is_computed", "_DesignSpace__lower_bounds_array", "_DesignSpace__upper_bounds_array", "_norm_factor",
@@ -80,6 +84,10 @@ class AlgoV:
 
     def __init__(self, lib, name, stage, dim=None, seed=None, opts=None):
         self.lib, self.name, self.stage, self.dim, self.seed, self.opts = lib, name, stage, dim, seed, opts
+
+
+class FinfoV:
+    """numpy.finfo(float64)."""
 
 
 class VersionV:
@@ -179,6 +187,8 @@ class C14Models:
                 # gemseo's BaseOTDOE.generate_samples(n_samples, dimension, **settings) of the selected algorithm, drawing from the global
                 # OpenTURNS random generator (seeded by RandomGenerator.SetSeed: ghost c14_ot_seed)
                 return _tp_call(ex, recv.name, TInt.embed(st, args[1]), TVal.embed(st, args[0]), st.ghost_get("c14_ot_seed", z3.IntSort()), _opts_term(ex, kwargs))
+            if recv.lib == "ot-stratified" and name == "tp:generate" and not args and not kwargs:
+                return AlgoV(recv.lib, None, "sample", dim=recv.dim, opts=recv.opts)
             if recv.lib == "scipy" and name == "tp:random" and len(args) == 1 and not kwargs:
                 return _tp_call(ex, recv.name, recv.dim, TVal.embed(st, args[0]), recv.seed, recv.opts)
             raise Unsupported(f"third-party method {name}")
@@ -265,12 +275,26 @@ class C14Models:
             return ex.models.make_list(ex, [e.value for e in expr.elts])
         return NotImplemented
 
+    def builtin_constant(self, ex, name):
+        # default value `DesignVariableType.FLOAT` of DesignSpace.add_variable (a class-body name: DesignVariableType = DataType, a StrEnum)
+        if _on(ex) and name in ("DesignVariableType.FLOAT", "DesignVariableType.INTEGER"):
+            return {"FLOAT": "float", "INTEGER": "integer"}[name.rsplit(".", 1)[1]]
+        return NotImplemented
+
     def module_constant(self, ex, mi, name):
         if _on(ex) and name == "SCIPY_VERSION":
             return VersionV(None)
         return NotImplemented
 
+    def pyobj_attr(self, ex, ref, o, attr, lineno):
+        if _on(ex) and attr == "_ALGO_CLASS":
+            # the OpenTURNS StratifiedExperiment class of a stratified DOE (class attribute set by the concrete subclasses)
+            return AlgoV("ot-stratified", None, "class")
+        return NotImplemented
+
     def value_attr(self, ex, obj, attr, lineno):
+        if isinstance(obj, FinfoV) and attr == "eps":
+            return 2.220446049250313e-16
         if isinstance(obj, AlgoV):
             return BoundMethod(obj, None, f"tp:{attr}")
         return NotImplemented
@@ -292,6 +316,8 @@ class C14Models:
     def call_opaque(self, ex, fv, args, kwargs, lineno):
         st = ex.st
         if isinstance(fv, AlgoV) and fv.stage == "class":
+            if fv.lib == "ot-stratified" and len(args) == 2 and not kwargs and all(_is_arr(ex, a) for a in args):
+                return AlgoV(fv.lib, None, "instance", dim=_arr(ex, args[0]), opts=_arr(ex, args[1]))
             if fv.lib == "openturns" and not args and not kwargs:
                 return AlgoV(fv.lib, fv.name, "instance")
             if fv.lib == "scipy" and len(args) == 1 and "seed" in kwargs:
@@ -322,6 +348,12 @@ class C14Models:
         return NotImplemented
 
     def coerce(self, ex, v, t):
+        if getattr(ex.contract, "c14_design_space_schema", None) and not isinstance(v, bool):
+            # literal arguments of a callee under contract (add_variable("x", size=d, ...)): embedded as terms of the declared type
+            if t == TStr and isinstance(v, str):
+                return SV(str_lit(v), TStr)
+            if t == TInt and isinstance(v, int):
+                return SV(z3.IntVal(v), TInt)
         if _on(ex) and isinstance(t, TOpt) and t.inner == TInt and isinstance(v, SV) and v.ty == TVal:
             # a validated setting (opaque value) used as Optional[int]: None, or the int it holds
             return SV(z3.If(v.term == val_none, t.dt.none, t.dt.some(int_of_val(v.term))), t)
@@ -344,7 +376,37 @@ class C14Models:
 
                 if S.is_subclass(ex.st.heap[x.id].cls, "gemseo.algos.design_space.DesignSpace"):
                     return x
-            raise Unsupported("BaseDOELibrary.__get_design_space on a dimension (int): construction of the unit design space is not modelled")
+            if ex.num(x) is not None and ex.num(x)[1] == TInt and not isinstance(x, bool):
+                # the overload registered for `int`: its real body (the method named `_` whose parameter is annotated `int`) is inlined
+                from . import source as S
+
+                ci = S.load_class(fi.cls.qualname)
+                for node in ci.methods.get("_", []):
+                    a = node.args.args
+                    if len(a) == 2 and a[1].annotation is not None and ast.unparse(a[1].annotation) == "int":
+                        return ex.inline(S.FunctionInfo(f"{ci.qualname}._", ci.module, ci, node, "method"), list(args), dict(kwargs), lineno)
+            raise Unsupported("BaseDOELibrary.__get_design_space: no overload for this argument")
+        return NotImplemented
+
+    def construct(self, ex, cv, args, kwargs, lineno):
+        if _on(ex) and cv.qualname == "gemseo.algos.design_space.DesignSpace" and getattr(ex.contract, "c14_design_space_schema", None):
+            # DesignSpace() inside a C14 contract: ASSUMED constructor model (DesignSpace.__init__ is not under contract in C02): a new object typed
+            # by the C14 schema of the design space that is the empty design space - no variable, policy, index range or current value, dimension 0,
+            # integer normalisation disabled (class-level default), no normalisation data
+            from .values import TObj
+
+            if args or kwargs:
+                raise Unsupported("DesignSpace(name) with arguments")
+            st = ex.st
+            ref = TObj(cv.qualname, schema_key=ex.contract.c14_design_space_schema).fresh(st, "new_design_space")
+            f = st.heap[ref.id].fields
+            for d in ("_variables", "normalize", "_DesignSpace__names_to_indices", "_DesignSpace__current_value", "_DesignSpace__norm_current_value"):
+                st.assume(st.heap[f[d].id].n == 0)
+            st.assume(z3.And(f["dimension"].term == 0, z3.Not(f["_DesignSpace__normalize_integer_variables"].term), z3.Not(f["_DesignSpace__norm_data_is_computed"].term),
+                             z3.Not(f["_DesignSpace__has_current_value"].term)))
+            ex.assumed.add("DesignSpace(): the empty design space (dimension 0, no variable / policy / index range / current value, integer normalisation disabled) - "
+                           "constructor not under contract")
+            return ref
         return NotImplemented
 
     # ------------------------------------------------------------------ builtins / numpy functions
@@ -355,6 +417,8 @@ class C14Models:
         from .models import DictView
 
         st = ex.st
+        if name == "numpy.finfo" and len(args) == 1 and isinstance(args[0], BuiltinV) and args[0].name in ("numpy.float64", "float"):
+            return FinfoV()
         if name == "openturns.RandomGenerator.SetSeed" and len(args) == 1 and not kwargs:
             st.ghost_set("c14_ot_seed", TInt.embed(st, args[0]))
             return None
@@ -424,6 +488,37 @@ class C14Models:
         if name == "numpy.apply_along_axis" and len(args) == 1 and kwargs.get("axis") == 1 and _is_arr(ex, kwargs.get("arr")) and isinstance(args[0], BoundMethod) \
                 and args[0].finfo is not None and args[0].finfo.qualname.endswith("DesignSpace.transform_vect") and isinstance(args[0].recv, Ref):
             return self._transform_rows(ex, args[0].recv, _arr(ex, kwargs["arr"]))
+        if name == "numpy.array" and len(args) == 1 and not kwargs and isinstance(args[0], AlgoV) and args[0].stage == "sample":
+            # array(StratifiedExperiment(center, levels).generate()): ASSUMED (OpenTURNS Axial / Factorial / Composite, checked natively): the centre plus
+            # weight(d) points per level, one column per component; with centre 1/2 and levels in ]0, 1/2] every coordinate is in [0, 1]
+            C0, Lv = args[0].dim, args[0].opts
+            d, nl = C0.shape[0], Lv.shape[0]
+            w = strat_weight(d)
+            R = st.fresh_const("otsample", arr_sort("f", 2))
+            r, i = z3.Int("r!ot"), z3.Int("i!ot")
+            st.assume(w >= 1)
+            centred = z3.ForAll([i], z3.Implies(z3.And(0 <= i, i < d), C0.elems[i] == z3.Q(1, 2)))
+            small = z3.ForAll([i], z3.Implies(z3.And(0 <= i, i < nl), z3.And(0 < Lv.elems[i], Lv.elems[i] <= z3.Q(1, 2))))
+            st.assume(z3.Implies(z3.And(centred, small), z3.ForAll([r, i], z3.Implies(z3.And(0 <= r, r < 1 + w * nl, 0 <= i, i < d),
+                                                                                      z3.And(0 <= z3.Select(R, r, i), z3.Select(R, r, i) <= 1)), patterns=[z3.Select(R, r, i)])))
+            ex.assumed.add("OpenTURNS StratifiedExperiment(centre, levels).generate(): 1 + weight(d) * len(levels) points of dimension d (weight: 2 d axial, 2^d factorial, "
+                           "both composite); coordinates in [0, 1] for centre 1/2 and levels in ]0, 1/2]")
+            return _np.new(ex, "f", (1 + w * nl, d), R)
+        if name == "numpy.array" and len(args) == 1 and not kwargs and isinstance(args[0], Ref) and isinstance(st.heap[args[0].id], ListObj) \
+                and isinstance(st.heap[args[0].id].t, TArr) and st.heap[args[0].id].t.rank == 1:
+            # array(<list of vectors of a common length>): the matrix whose rows are the vectors (a ragged list raises ValueError)
+            L = st.heap[args[0].id]
+            ta = L.t
+            k = z3.Int("k!av")
+            if not st.decide(L.n >= 1):
+                return _np.new(ex, ta.kind, (z3.IntVal(0),), st.fresh_const("emptyarr", arr_sort(ta.kind, 1)))
+            cols = ta.dim(L.elems[0])
+            if not st.decide(z3.ForAll([k], z3.Implies(z3.And(0 <= k, k < L.n), ta.dim(L.elems[k]) == cols))):
+                raise PyRaise("ValueError", lineno)
+            R = st.fresh_const("rowsof", arr_sort(ta.kind, 2))
+            r, i = z3.Int("r!av"), z3.Int("i!av")
+            st.assume(z3.ForAll([r, i], z3.Implies(z3.And(0 <= r, r < L.n, 0 <= i, i < cols), z3.Select(R, r, i) == ta.els(L.elems[r])[i]), patterns=[z3.Select(R, r, i)]))
+            return _np.new(ex, ta.kind, (L.n, cols), R)
         if name == "numpy.hstack" and len(args) == 1 and not kwargs and isinstance(args[0], Ref) and isinstance(st.heap[args[0].id], ListObj) \
                 and isinstance(st.heap[args[0].id].t, TArr):
             L = st.heap[args[0].id]
